@@ -218,7 +218,8 @@ def gen_case(fmt):
                 unv.append([d, name, draw(st.sampled_from(
                     ["file", "directory"]))])
         # option sets
-        allp = sorted(set(tm.paths(m)) | {"nonexistent"})
+        allp = sorted(set(tm.paths(m)) | set(tm.paths(m0)) |
+                      set(tm.paths(m1)) | {"nonexistent"})
         opts = []
         for _ in range(4):
             o = {"include_unchanged": draw(st.integers(0, 9)) < 3,
